@@ -64,12 +64,12 @@ def build_case(ptn, rng, model, d, L):
     if model == 'mol':
         t = np.array([[rng.randint(-5, 5) or 1 for _ in range(L)] for _ in range(L)], dtype=float)
         v = np.array([rng.randint(-4, 4) or 1 for _ in range(L**4)], dtype=float).reshape((L,) * 4)
-        mpo = ptn.molecular_hamiltonian_mpo(t, v, optimize=True)
+        mpo = ptn.molecular_hamiltonian_mpo(t, v, optimize=rng.choice([True, np.True_, 1]))        # any truthy flag
         return mpo, dense_int(mpo.as_matrix(), 2, model), 2, ['random integer tkin, vint']
     if model == 'spinmol':
         t = np.array([[rng.randint(-5, 5) or 1 for _ in range(L)] for _ in range(L)], dtype=float)
         v = np.array([rng.randint(-4, 4) or 1 for _ in range(L**4)], dtype=float).reshape((L,) * 4)
-        mpo = ptn.spin_molecular_hamiltonian_mpo(t, v, optimize=True)
+        mpo = ptn.spin_molecular_hamiltonian_mpo(t, v, optimize=rng.choice([True, np.True_, 1]))
         return mpo, dense_int(mpo.as_matrix(), 2, model), 4, ['random integer tkin, vint']
     raise ValueError(model)
 
@@ -121,7 +121,7 @@ def run(ctx):
               defs=dict(COEFS='{1,2}', COEFS2='{1}'), invariants=['ConsistentOK'], properties=['MergeShrinks'], timeout=900)
 
     # ------------------------------------------------------------------ S: chain lists
-    cl_cases = [c05.random_phys_case(rng, rng.choice([2, 3, 4, 5, 6])) for _ in range(ctx.pick(150, 3000))]
+    cl_cases = [c05.random_phys_case(rng, rng.choice([2, 3, 4, 5, 6]), zeros=0.7) for _ in range(ctx.pick(240, 3000))]
     cl_traces = [c05.record_compile(ptn, c['L'], c['idoid'], c['chains'], c['phys']) for c in cl_cases]
     for c in cl_cases:
         ctx.count(c, nontrivial=len(c['chains']) >= 2)
